@@ -31,7 +31,7 @@ pub fn registry() -> Vec<Entry> {
         Entry { id: "C07", run: writers::run_c07, floor: writers::floor_c07, rule: "same configuration workload as C06; each accepted, representable configuration's bytes are compared with the independent RFC encoder's image (FIR entries as a multiset; NACK by decoded set, minimal word count and strictly increasing PIDs; RPSI with a fully ignored last byte in either of two images). Non-trivial = builder accepted; distinct = hash of the configuration." },
         Entry { id: "C08", run: parsers::run_c08, floor: parsers::floor_c08, rule: "hostile byte strings: exhaustive header space, > 64 KiB inputs, seeded mutations / random bodies / valid packets; for each of the 7 typed parsers, Unknown and Packet, acceptance implies the framing predicate computed from the bytes and header accessors equal to the header bytes. Non-trivial = some parser accepted; distinct = fingerprint of the bytes." },
         Entry { id: "C09", run: parsers::run_c09, floor: parsers::floor_c09, rule: "(1) hostile byte strings as in C08: for each fixed-layout parser that accepts, every accessor is compared with an independent big-endian read at the RFC offset and every returned slice with its expected pointer range; (2) model-encoded packets over full field ranges (seeded) must be accepted and read back equal. Non-trivial = accepted; distinct = fingerprint of bytes / hash of configuration." },
-        Entry { id: "C10", run: fci_sdes::run_c10, floor: fci_sdes::floor_c10, rule: "byte strings framed as SDES: exhaustive bodies of 0..=2 (quick) / 0..=3 (thorough) words over {0,1,2,8} x 3 SSRC prefixes x padded/unpadded x SC 0..=3; model-encoded SDES packets and their mutations; random bodies. Each is classified MustAccept(tokens)/MustReject/Either by an independent tokeniser and the parser's verdict and yield are compared. Non-trivial = classified MustAccept, MustReject, or Either-and-accepted; distinct = fingerprint of the bytes." },
+        Entry { id: "C10", run: fci_sdes::run_c10, floor: fci_sdes::floor_c10, rule: "byte strings framed as SDES: exhaustive bodies of 0..=2 (quick) / 0..=3 (thorough) words over {0,1,2,8}, and of 1..=2 words over {0,1,4,6}, x 3 SSRC prefixes x padding trailer 0/4/8 bytes x SC 0..=3; model-encoded SDES packets and their mutations; random bodies. Each is classified MustAccept(tokens)/MustReject/Either by an independent tokeniser and the parser's verdict and yield are compared. Non-trivial = classified MustAccept, MustReject, or Either-and-accepted; distinct = fingerprint of the bytes." },
         Entry { id: "C11", run: parsers::run_c11, floor: parsers::floor_c11, rule: "byte strings: generated tilings of 1..=5 tiles (6 tile lengths x 9 packet types) with a failing tile at any position and perturbed total length; header space; mutated model compounds; 20 000-tile compound. Compound::parse is compared with the model tiling and the iteration (4 call histories) with Packet::parse per tile. Non-trivial = accepted compound; distinct = fingerprint of the bytes." },
         Entry { id: "C12", run: parsers::run_c12, floor: parsers::floor_c12, rule: "byte strings of >= 4 bytes (header space, hostile, valid): generic parser vs the typed parser selected by the type byte; for accepted packets all 7 conversion targets through try_as / TryFrom<&Packet> / TryFrom<Packet> / Unknown routes. Non-trivial = generic parser accepted; distinct = fingerprint of the bytes." },
         Entry { id: "C13", run: fci_sdes::run_c13, floor: fci_sdes::floor_c13, rule: "well-formed unpadded packets from the independent encoder (structural sweeps of every type and FCI kind + seeded random) x paddings (all 63 for the sweeps; {4,8,252,random} or all 63 for random bases): padded packet accepted, padding() reports the amount, all content accessors equal to the unpadded packet's. Non-trivial = both accepted; distinct = fingerprint of (base bytes, padding)." },
